@@ -467,6 +467,12 @@ def run_check(prop, engine_name, tier, seed, jobs, level, extra_evidence=None):
           % (prop, engine_name, tier, seed, jobs, REPO), flush=True)
     os.environ["QSIM_TIER"] = tier
     cases = engine.plan(prop, tier, seed)
+    min_cases = getattr(engine, "MIN_CASES", {}).get((prop, tier)) or \
+        getattr(engine, "MIN_CASES", {}).get(tier, 1)
+    if len(cases) < min_cases:
+        print("HARNESS-ERROR property=%s the planner produced %d cases, fewer than the %d this "
+              "tier is meant to run" % (prop, len(cases), min_cases), flush=True)
+        return 2
     hang_s = getattr(engine, "HANG_S", 600)
     if hasattr(engine, "prepare"):
         engine.prepare(cases, jobs)
